@@ -871,6 +871,64 @@ pub fn adaptive(thresholds: &[usize]) -> Vec<ModuleSpec> {
     out
 }
 
+/// Definition-only histories with data whose size is not a multiple of their alignment (a foreign type
+/// table or an override can say so): holes of equal size so that several placements tie.
+fn odd_shapes(out: &mut Vec<ModuleSpec>) {
+    let shapes = [(4, 8), (4, 16), (2, 4), (6, 4), (12, 8), (1, 2), (0, 8), (0, 16), (20, 16), (3, 2), (8, 16), (24, 16)];
+    for (si, &(size, align)) in shapes.iter().enumerate() {
+        for (label, s) in [("simple", Simple), ("basic", Basic), ("append", Append)] {
+            for holes_at in [1usize, 2] {
+                // twelve 8-byte (then 16-byte) slots, every `holes_at + 1`-th one freed
+                let unit = if size > 8 { Over16 } else { U64 };
+                let mut h = Vec::new();
+                for i in 0..12 {
+                    h.push(add(&f(i), unit));
+                }
+                h.push(close(Append));
+                for i in (1..12).step_by(holes_at + 1) {
+                    h.push(rm(&f(i)));
+                }
+                h.push(add("odd", Shape(size, align)));
+                h.push(add("pad", U32));
+                h.push(close(s));
+                h.push(rm(&f(0)));
+                h.push(add("odd2", Shape(size, align)));
+                h.push(addu("tiny", U8));
+                h.push(close(s));
+                let mut m = ModuleSpec::new(format!("odd/{}x{}/{}/{}", size, align, label, holes_at), h);
+                m.definition_only = true;
+                let _ = si;
+                out.push(m);
+            }
+            // equal holes made of runs of freed small slots: wider than the alignment, so that an aligned
+            // place exists inside each of them and several holes tie
+            for (ui, unit) in [U32, U16, U64].into_iter().enumerate() {
+                for runs in [2usize, 3] {
+                    let mut h = Vec::new();
+                    let n = 8 * runs + 2;
+                    for i in 0..n {
+                        h.push(add(&f(i), unit));
+                    }
+                    h.push(close(Append));
+                    for r in 0..runs {
+                        for i in (8 * r + 2)..=(8 * r + 6) {
+                            h.push(rm(&f(i)));
+                        }
+                    }
+                    h.push(add("odd", Shape(size, align)));
+                    h.push(close(s));
+                    h.push(add("odd2", Shape(size, align)));
+                    h.push(add("pad", U16));
+                    h.push(close(s));
+                    let mut m = ModuleSpec::new(format!("odd/{}x{}/{}/runs{}x{}", size, align, label, runs, ui), h);
+                    m.definition_only = true;
+                    out.push(m);
+                }
+            }
+        }
+    }
+}
+
 pub fn specs(thorough: bool, seed: u64) -> Vec<ModuleSpec> {
     let mut out = Vec::new();
     h1(&mut out, thorough);
@@ -878,6 +936,7 @@ pub fn specs(thorough: bool, seed: u64) -> Vec<ModuleSpec> {
     h3(&mut out, thorough);
     h4(&mut out, thorough);
     h5(&mut out, thorough);
+    odd_shapes(&mut out);
     holes(&mut out, if thorough { 300 } else { 120 }, 7);
     if thorough {
         holes(&mut out, 1800, seed.wrapping_add(77));
